@@ -105,7 +105,8 @@ class Gen:
     # --- items: dicts with 'kind' and the rendered 'lines' (list of bytes without \n)
     def blank_item(self):
         self.count("item_blank")
-        return {"kind": "blank", "lines": [self.blanks(0, 3)]}
+        ws = self.blanks(0, 3)
+        return {"kind": "blank", "lines": [ws], "sp": ("b", ws)}
 
     def comment_item(self, text=None):
         self.count("item_comment")
@@ -114,17 +115,19 @@ class Gen:
         t = self.text(0, 10) if text is None else text
         if ind:
             self.count("comment_indented")
-        return {"kind": "comment", "lines": [ind + c + t], "text": t}
+        return {"kind": "comment", "lines": [ind + c + t], "text": t, "sp": ("c", ind, c, t)}
 
     def section_item(self):
         self.count("item_section")
         name = self.section_name()
         tc = self.trailing_comment() if self.rng.random() < 0.25 else None
-        line = self.blanks(0, 2) + b"[" + name + b"]" + self.blanks(0, 2)
+        lead, trail = self.blanks(0, 2), self.blanks(0, 2)
+        line = lead + b"[" + name + b"]" + trail
         if tc is not None:
             line += tc
             self.count("section_trailing_comment")
-        return {"kind": "section", "lines": [line], "name": name, "tc": None if tc is None else tc[1:]}
+        return {"kind": "section", "lines": [line], "name": name, "tc": None if tc is None else tc[1:],
+                "sp": ("s", lead, name, trail, None if tc is None else (tc[:1], tc[1:]))}
 
     def entry_item(self, key=None):
         self.count("item_entry")
@@ -133,8 +136,10 @@ class Gen:
         it = {"kind": "entry", "key": key, "quotes": False, "cont": []}
         if self.cls == "none":
             tc = self.trailing_comment() if self.rng.random() < 0.2 else None
-            line = lead + key + self.blanks(0, 2) + (tc or b"")
-            it.update(lines=[line], value=None, tc=None if tc is None else tc[1:])
+            ktrail = self.blanks(0, 2)
+            line = lead + key + ktrail + (tc or b"")
+            it.update(lines=[line], value=None, tc=None if tc is None else tc[1:],
+                      sp=("k", lead, key, ktrail, None if tc is None else (tc[:1], tc[1:])))
             self.count("entry_keys_only")
             return it
         quoted = self.rng.random() < 0.3
@@ -155,6 +160,7 @@ class Gen:
             ws1, ws2 = self.blanks(0, 2), self.blanks(0, 2)
             d = bytes([self.rng.choice(self.delim)])
             sep = ws1 + d + ws2
+            sepparts = (ws1, d, ws2)
             after = ws2 + spelled + tws
             absent = (not ws1) and (not after)
             self.count("sep_ws1" if ws1 else "sep_tight")
@@ -163,14 +169,19 @@ class Gen:
             parts = [self.rng.choice(BLANKS) for _ in range(self.rng.randint(0, 2))] + [dl]
             self.rng.shuffle(parts)
             sep = b"".join(parts)
+            ipos = parts.index(dl)
+            sepparts = (b"".join(parts[:ipos]), dl, b"".join(parts[ipos + 1:]))
             absent = False
         else:  # mixed
             nb = [c for c in self.delim if not is_blank(c)]
             if self.rng.random() < 0.5:
                 sep = self.blanks(1, 3)
+                sepparts = (b"", sep[:1], sep[1:])
                 self.count("mixed_sep_blanks")
             else:
-                sep = self.blanks(0, 2) + bytes([self.rng.choice(nb)]) + self.blanks(0, 2)
+                m1, md, m2 = self.blanks(0, 2), bytes([self.rng.choice(nb)]), self.blanks(0, 2)
+                sep = m1 + md + m2
+                sepparts = (m1, md, m2)
                 self.count("mixed_sep_delim")
             absent = False
         line = lead + key + sep + spelled + tws + (tc or b"")
@@ -184,6 +195,9 @@ class Gen:
         else:
             val = value
         it.update(lines=[line], value=val, tc=None if tc is None else tc[1:])
+        conts_sp = []
+        it["sp"] = ("e", lead, key, sepparts[0], sepparts[1], sepparts[2], "q" if quoted else "p", value, tws,
+                    None if tc is None else (tc[:1], tc[1:]), conts_sp)
         # continuation lines
         if (self.cls == "nonblank" and not self.single_line and not self.python and not (not quoted and value == b"")
                 and self.rng.random() < 0.3):
@@ -193,9 +207,11 @@ class Gen:
                     t = self.text(1, 8, forbid).strip(b" \t\x0b\x0c\r")
                     if t and t[:1] != b"[":
                         break
-                cl = self.blanks(1, 3) + t + self.blanks(0, 2)
+                ci, ct = self.blanks(1, 3), self.blanks(0, 2)
+                cl = ci + t + ct
                 it["lines"].append(cl)
                 it["cont"].append(cl)
+                conts_sp.append((ci, t, ct))
             self.count("entry_with_continuation")
         return it
 
@@ -300,3 +316,29 @@ def ext_values(v):
     if t[:1] == b'"':
         return [t]
     return [trim(x) for x in t.split(b"\n")]
+
+
+def docwf_lines(items, delim, comment, content, final_newline=True):
+    """the document as input of `econf_model --docwf` (structured items, then the bytes fed to the implementation)"""
+    def hx(b):
+        return "h" + b.hex()
+
+    def tcs(tc):
+        return "-" if tc is None else "%s:%s" % (tc[0].hex(), hx(tc[1]))
+    out = ["DOC %s %s" % (hx(delim), hx(comment))]
+    for it in items:
+        sp = it.get("sp")
+        if sp is None:
+            out.append("IT ?")
+        elif sp[0] == "b":
+            out.append("IT b %s" % hx(sp[1]))
+        elif sp[0] == "c":
+            out.append("IT c %s %s %s" % (hx(sp[1]), sp[2].hex(), hx(sp[3])))
+        elif sp[0] in ("s", "k"):
+            out.append("IT %s %s %s %s %s" % (sp[0], hx(sp[1]), hx(sp[2]), hx(sp[3]), tcs(sp[4])))
+        else:
+            _, ind, key, ws1, d, ws2, kind, val, tws, tc, conts = sp
+            out.append("IT e %s %s %s %s %s %s %s %s %s %d %s" % (hx(ind), hx(key), hx(ws1), d.hex(), hx(ws2), kind, hx(val), hx(tws), tcs(tc), len(conts),
+                                                                 " ".join("%s %s %s" % (hx(a), hx(b), hx(c)) for a, b, c in conts)))
+    out.append("CHECK %s %d" % (hx(content), 1 if final_newline else 0))
+    return out
